@@ -589,17 +589,21 @@ def rule_guarded_subscripts(em, rep, rid, fields=('_predicates_store', 'eval_con
 def rule_combine_order(em, rep, rid):
     rep.rule(rid, 'the non-overwrite branch of load_script_from_string passes (existing definition, new definition) in '
                   'that order to the chaining helper; the helper runs its parameters in order, each called separately')
-    f = _method(em, 'load_script_from_string')
+    f0 = _method(em, 'load_script_from_string')
     helper = em.engine.functions.get('chain_functions')
-    calls = [n for n, cs in em.cg.calls.get(f, ()) if helper is not None and helper in cs]
-    if helper is None or not calls:
-        rep.violation(rid, f.qname + ':combine', 'no call to a chaining helper on the non-overwrite path: definitions cannot be combined', f.loc())
+    # the call may sit in a helper method of the load function
+    sites = []
+    for g in em.cg.reachable([f0], with_refs=False, include_nested=False):
+        if g.cls is em.YP or g is f0:
+            sites += [(g, n) for n, cs in em.cg.calls.get(g, ()) if helper is not None and helper in cs]
+    if helper is None or not sites:
+        rep.violation(rid, f0.qname + ':combine', 'no call to a chaining helper on the non-overwrite path: definitions cannot be combined', f0.loc())
         return
-    loopvars = set()
-    for s in own_nodes(f.node):
-        if isinstance(s, ast.For):
-            loopvars |= {x.id for x in ast.walk(s.target) if isinstance(x, ast.Name)}
-    for c in calls:
+    for f, c in sites:
+        loopvars = set(f.params[1:]) if f is not f0 else set()
+        for s in own_nodes(f.node):
+            if isinstance(s, ast.For):
+                loopvars |= {x.id for x in ast.walk(s.target) if isinstance(x, ast.Name)}
         key = '%s:%s' % (f.qname, norm(c))
         if len(c.args) != 2:
             rep.violation(rid, key, 'chaining helper is not called with (old, new)', f.loc(c))
@@ -645,6 +649,31 @@ def rule_combine_order(em, rep, rid):
         rep.violation(rid, helper.qname + ':separate', 'combined definitions are not called as separate generators', helper.loc())
 
 
+def self_writers(em):
+    """methods of the engine class that write engine state, directly or through the self methods they call"""
+    direct = set()
+    for m in em.YP.methods.values():
+        for n in own_nodes(m.node):
+            if isinstance(n, (ast.Attribute, ast.Subscript)) and isinstance(n.ctx, (ast.Store, ast.Del)) and norm(n).startswith('self.'):
+                direct.add(m)
+            if isinstance(n, ast.Call) and isinstance(n.func, ast.Attribute) and norm(n.func.value).startswith('self.') and \
+                    n.func.attr in ('update', 'setdefault', 'pop', 'clear', 'append', 'insert', 'remove', 'extend', 'add', 'discard'):
+                direct.add(m)
+    out = set(direct)
+    changed = True
+    while changed:
+        changed = False
+        for m in em.YP.methods.values():
+            if m in out:
+                continue
+            for n, cs in em.cg.calls.get(m, ()):
+                if is_self_attr(n.func) and any(c in out for c in cs):
+                    out.add(m)
+                    changed = True
+                    break
+    return out
+
+
 def rule_atomic_load(em, rep, rid):
     rep.rule(rid, 'compile() and exec() of a script run on a copy of the context and dominate the first write to engine '
                   'state; the merge that follows contains no call that can raise on bad input')
@@ -654,9 +683,11 @@ def rule_atomic_load(em, rep, rid):
     key = f.qname + ':exec'
     if not execs:
         raise AnalysisError('anchor vanished: no exec() in load_script_from_string')
+    writers = self_writers(em)
     writes = [n for n in cfg.nodes if (n.kind == 'store' and 'self.' in norm(n.ast)) or
               (n.kind == 'call' and isinstance(n.ast.func, ast.Attribute) and n.ast.func.attr in ('update', 'setdefault', 'pop', 'clear', '__setitem__')
-               and norm(n.ast.func.value).startswith('self.'))]
+               and norm(n.ast.func.value).startswith('self.')) or
+              (n.kind == 'call' and is_self_attr(n.ast.func) and em.repo.lookup_method(em.YP, n.ast.func.attr) in writers)]
     dom = cfg.g.dominators(cfg.entry)
     for e in execs:
         g = e.ast.args[1] if len(e.ast.args) > 1 else None
